@@ -146,7 +146,7 @@ def afCore (a : PacketAdaptationField) : Bytes :=
     ++ ((if a.hasOPCR = true then pcrBytes (a.opcr.getD default) else [])
     ++ ((if a.hasSplicingCountdown = true then [lowBits a.spliceCountdown 8] else [])
     ++ ((if a.hasTransportPrivateData = true then
-          [lowBits a.transportPrivateDataLength 8] ++ (if a.transportPrivateDataLength > 0 then a.transportPrivateData else [])
+          [lowBits a.transportPrivateData.length 8] ++ a.transportPrivateData
         else [])
     ++ (if a.hasAdaptationExtensionField = true then afExtBytes (a.adaptationExtensionField.getD defaultExt) else []))))))
 
@@ -198,14 +198,9 @@ theorem af_core_at (pre : Bytes) (a : PacketAdaptationField) (h1 : a.isOneByteSt
   refine ParsesAt.bind (opt_at _ _ _ _ _ (a.transportPrivateDataLength, a.transportPrivateData) ?_) ?_
   · intro hc
     obtain ⟨p0, p1⟩ := h.priv hc
-    have e : lowBits a.transportPrivateDataLength 8 = a.transportPrivateData.length := by
-      rw [p0, lowBits_nat]; simp only [Nat.reducePow]; omega
-    have e2 : (if a.transportPrivateDataLength > 0 then a.transportPrivateData else []) = a.transportPrivateData := by
-      split
-      · rfl
-      · have : a.transportPrivateData.length = 0 := by omega
-        exact (List.eq_nil_of_length_eq_zero this).symm
-    rw [e, e2]
+    have e : lowBits a.transportPrivateData.length 8 = a.transportPrivateData.length := by
+      rw [lowBits_nat]; simp only [Nat.reducePow]; omega
+    rw [e]
     refine ParsesAt.congr_val (priv_at _ _ p1) ?_
     rw [p0]
   refine ParsesAt.bind_last (opt_at _ _ _ _ _ (a.adaptationExtensionField.map normExt) ?_) ?_
@@ -228,16 +223,10 @@ theorem af_core_at (pre : Bytes) (a : PacketAdaptationField) (h1 : a.isOneByteSt
   have l3 : ((if a.hasSplicingCountdown = true then [lowBits a.spliceCountdown 8] else []).length : Int) = if a.hasSplicingCountdown = true then 1 else 0 := by
     split <;> simp
   have l4 : ((if a.hasTransportPrivateData = true then
-                      [lowBits a.transportPrivateDataLength 8] ++
-                        if a.transportPrivateDataLength > 0 then a.transportPrivateData else []
+                      [lowBits a.transportPrivateData.length 8] ++ a.transportPrivateData
                     else []).length : Int) = if a.hasTransportPrivateData = true then 1 + (a.transportPrivateData.length : Int) else 0 := by
     split
-    · rename_i hc
-      obtain ⟨p0, p1⟩ := h.priv hc
-      by_cases hz : a.transportPrivateDataLength > 0
-      · simp [hz]; omega
-      · have : a.transportPrivateData.length = 0 := by omega
-        simp [hz, this]
+    · simp; omega
     · simp
   have l5 : ((if a.hasAdaptationExtensionField = true then afExtBytes (a.adaptationExtensionField.getD defaultExt)
                   else []).length : Int) = if a.hasAdaptationExtensionField = true then 1 + (afExtSize (a.adaptationExtensionField.getD defaultExt) : Int) else 0 := by
@@ -275,9 +264,9 @@ theorem af_at (pre : Bytes) (a : PacketAdaptationField) (h : a.isOneByteStuffing
   · exact af_core_at pre a h1 (h h1).1 (h h1).2
   · exact af_one_at pre a h1
 
-/-- bytes written for the adaptation field = 1 + adaptation_field_length -/
-theorem afBytes_length' (a : PacketAdaptationField) (h1 : a.isOneByteStuffing = false)
-    (hp : a.hasTransportPrivateData = true → a.transportPrivateDataLength = a.transportPrivateData.length) :
+/-- bytes written for the adaptation field = 1 + adaptation_field_length, for EVERY adaptation field that is not the
+one-byte form (the writer derives the private-data length byte from the data, so no agreement hypothesis is needed) -/
+theorem afCore_stuffing_length (a : PacketAdaptationField) (h1 : a.isOneByteStuffing = false) :
     ((afCore a).length : Int) + (afStuffing a).length = 1 + afSize a := by
   unfold afCore afStuffing
   rw [if_neg (show ¬ a.isOneByteStuffing = true by simp [h1]), if_neg (show ¬ a.isOneByteStuffing = true by simp [h1])]
@@ -288,16 +277,10 @@ theorem afBytes_length' (a : PacketAdaptationField) (h1 : a.isOneByteStuffing = 
   have l3 : ((if a.hasSplicingCountdown = true then [lowBits a.spliceCountdown 8] else []).length : Int) = if a.hasSplicingCountdown = true then 1 else 0 := by
     split <;> simp
   have l4 : ((if a.hasTransportPrivateData = true then
-                      [lowBits a.transportPrivateDataLength 8] ++
-                        if a.transportPrivateDataLength > 0 then a.transportPrivateData else []
+                      [lowBits a.transportPrivateData.length 8] ++ a.transportPrivateData
                     else []).length : Int) = if a.hasTransportPrivateData = true then 1 + (a.transportPrivateData.length : Int) else 0 := by
     split
-    · rename_i hc
-      have p0 := hp hc
-      by_cases hz : a.transportPrivateDataLength > 0
-      · simp [hz]; omega
-      · have : a.transportPrivateData.length = 0 := by omega
-        simp [hz, this]
+    · simp; omega
     · simp
   have l5 : ((if a.hasAdaptationExtensionField = true then afExtBytes (a.adaptationExtensionField.getD defaultExt)
                   else []).length : Int) = if a.hasAdaptationExtensionField = true then 1 + (afExtSize (a.adaptationExtensionField.getD defaultExt) : Int) else 0 := by
@@ -307,5 +290,17 @@ theorem afBytes_length' (a : PacketAdaptationField) (h1 : a.isOneByteStuffing = 
   simp only [List.length_append, Int.natCast_add, l1, l2, l3, l4, l5, List.length_cons, List.length_nil, List.length_replicate]
   unfold afSize
   omega
+
+/-- the earlier form, with the (now unnecessary) agreement hypothesis on TransportPrivateDataLength -/
+theorem afBytes_length' (a : PacketAdaptationField) (h1 : a.isOneByteStuffing = false)
+    (_hp : a.hasTransportPrivateData = true → a.transportPrivateDataLength = a.transportPrivateData.length) :
+    ((afCore a).length : Int) + (afStuffing a).length = 1 + afSize a :=
+  afCore_stuffing_length a h1
+
+/-- `afBytes` of any adaptation field that is not the one-byte form has exactly `1 + afSize` bytes -/
+theorem afBytes_length_exact (a : PacketAdaptationField) (h1 : a.isOneByteStuffing = false) :
+    ((afBytes a).length : Int) = 1 + afSize a := by
+  rw [afBytes_split, List.length_append, Int.natCast_add]
+  exact afCore_stuffing_length a h1
 
 end Astits.PacketRT
